@@ -214,8 +214,8 @@ pub fn gen(ctx: &mut Ctx, idx: u64) -> (RunSpec, Cfg) {
 pub fn check(ctx: &mut Ctx, spec: &RunSpec, ex: &Execution) -> (Vec<Violation>, Vec<String>) {
     let mut viol = Vec::new();
     let mut probes: Vec<String> = Vec::new();
-    let fx = match crate::corpus::find(&ctx.corpus, &spec.file) {
-        Some(f) => f.clone(),
+    let fx = match ctx.fixture(&spec.file) {
+        Some(f) => f,
         None => return (viol, probes),
     };
     let m = ctx.models.get(&fx);
@@ -370,8 +370,8 @@ pub fn ex_dead_before(ex: &Execution, i: usize) -> bool {
 }
 
 pub fn exec_spec(ctx: &mut Ctx, spec: &RunSpec, idx: u64) -> RunResult {
-    let fx = match crate::corpus::find(&ctx.corpus, &spec.file) {
-        Some(f) => f.clone(),
+    let fx = match ctx.fixture(&spec.file) {
+        Some(f) => f,
         None => {
             return RunResult { idx, outcome: format!("harness: unknown file {}", spec.file), ..Default::default() };
         }
@@ -429,7 +429,7 @@ pub fn final_spec(ctx: &mut Ctx, idx: u64) -> RunSpec {
     if cfg != Cfg::C {
         return spec;
     }
-    let fx = crate::corpus::find(&ctx.corpus, &spec.file).unwrap().clone();
+    let fx = ctx.fixture(&spec.file).unwrap();
     let clean = ctx.models.get(&fx).clean_cpu_ns;
     let limits = Limits::for_input(fx.bytes.len(), cpu_budget(clean) * ctx.cpu_scale);
     let dry = execute(fx.bytes.clone(), spec.entry, spec.delivery.clone(), &spec.ops, limits, &ExecOpts { capture: true, stop_on_panic: true, probes: &[] });
